@@ -92,8 +92,9 @@ def run(ck):
             if freed: why.append('frees on the NULL path')
             continue
         exp = ['result']
-        if p.passed('result->lpart', True): exp.insert(0, 'result->lpart')
-        if p.passed('result->domain', True): exp.insert(len(exp) - 1, 'result->domain')
+        for fld in ('result->lpart', 'result->domain'):
+            if p.passed(fld, True): exp.insert(0, fld)
+            elif not p.passed(fld, False) and fld not in freed: why.append(f'{fld} is neither freed nor known to be NULL')
         if sorted(freed) != sorted(exp) or freed[-1] != 'result': why.append(f'frees {freed}, want {exp} (record last)')
     r6.instance('src/eav.c:eav_result_free[EAV_EXTRA]', ok=not why and len(paths) >= 2, wclass='result-free', what='; '.join(sorted(set(why))))
     ck.analysed(units=['extra:src/eav.c'], functions=['src/eav.c:eav_result_free'])
